@@ -14,6 +14,7 @@ PLAN = dict(
                            "after Read has returned an error, four further Reads are made: they must not hand out unauthenticated octets and must not report a clean io.EOF for a payload that was not delivered completely; which error they report is not examined",
                            "a Read may return (0, nil) for a non-empty buffer at most 4 times in a row; more is reported as no-progress"],
     runs=[
+        dict(name="conc", run="^(TestConcMutation|TestConcArbitrary)$", checks=(400, 20000), shards=(2, 8), timeout=(400, 3600), race=True),
         dict(name="exh", run="^(TestExhaustiveMutations|TestHostileDigests|TestCorpus)$", shards=(1, 16), timeout=(300, 3600)),
         dict(name="rapid", run="^TestPropMutation$", checks=(15000, 500000), shards=(2, 16), timeout=(300, 3600)),
         dict(name="arb", run="^TestPropArbitrary$", checks=(20000, 500000), shards=(1, 4), timeout=(300, 3600)),
